@@ -58,9 +58,15 @@ def build(tier, seed):
     # routes from a spelling that C04 proves: get_identifier(spelling) is the reserved Identifier, get_linkage("C" / "C++") and get_label(default) are the constants
     import C04
     u4, o4, m4 = C04.build(tier, seed)
-    keep = [o for o in o4 if any(o.id.startswith(p) for p in ('C04.get.identifier.', 'C04.get.linkage.', 'C04.get.linkage_word.', 'C04.get.label'))]
+    keep = [o for o in o4 if any(o.id.startswith(p) for p in ('C04.get.identifier.', 'C04.get.linkage.', 'C04.get.linkage_word.', 'C04.get.label', 'C04.get.symbol_void_then_label'))]
     for o in keep:
         o.id = 'C13.route.' + o.id.split('.', 2)[2]
+    # ... and the route word -> String (interning: a reserved spelling yields the process-wide constant String, on which
+    # get_linkage(String) and the identifier routes rest) as C03 establishes it on the real code
+    strings = [o for o in o4 if o.id in ('C04.strings.intern', 'C04.strings.word_if_known', 'C04.strings.known_word')]
+    for o in strings:
+        o.id = 'C13.route.strings.' + o.id.split('.', 2)[2]
+    keep += strings
     meta = dict(sweep_family='C13', functions_under_contract=sorted(names), assumptions=[
         'constant tables (reserved words, built-ins, symbolic constants, linkages, natural transfer) are the values clang\'s constant evaluator gives for the constexpr objects of src/impl.cxx',
         'rb_tree::container<T>::insert through its contract (C08) for the extended-type table',
